@@ -564,27 +564,17 @@ class AttributeSet(TypedExpression):
             raise KeyError(key) from None
         if len(segments) <= 1:
             raise KeyError(key)
-        current: AttributeSet = self
-        for index, segment in enumerate(segments):
-            binding_match: Binding | None = next(
-                (
-                    item
-                    for item in current.values
-                    if isinstance(item, Binding) and item.name == segment
-                ),
-                None,
-            )
-            if binding_match is None:
+        # One step at a time, as `self[a][b][c]` would: every level hands its own
+        # scope (a `rec` level its members) down to the next one.
+        current: Any = self
+        for segment in segments:
+            if not isinstance(current, AttributeSet):
                 raise KeyError(key)
-            if index == len(segments) - 1:
-                value = binding_match.value
-                if isinstance(value, NixExpression):
-                    attach_resolution_context(value, owner=self)
-                return value
-            if not isinstance(binding_match.value, AttributeSet):
-                raise KeyError(key)
-            current = binding_match.value
-        raise KeyError(key)
+            try:
+                current = current[segment]
+            except KeyError:
+                raise KeyError(key) from None
+        return current
 
     def __setitem__(self, key: str, value):
         """Allow dict-style updates while preserving binding order."""
